@@ -453,3 +453,61 @@ package corerad
 //@   ensures H6 [C12]: isRA(m) && result1 == nil ==> ghost.inconsistencies == old(ghost.inconsistencies) + ghost.nproblems && ghost.hookCalls == old(ghost.hookCalls) + b2i(ghost.nproblems > 0 && a.OnInconsistentRA != nil)
 //@   opt safety [C07,C09,C12]
 //@   opt frame [C07]
+
+// ---------------------------------------------------------------------------
+// monitor.go (C18)
+
+//@ ghost var monReceived Int
+//@ ghost var monSamples Int
+//@ ghost var monDefaultRoute Int
+
+//@ func boolFloat
+//@   ensures E1 [C17,C18]: result == ite(b, real(1), real(0))
+
+//@ funcfield corerad.Monitor.now() (t)
+//@   ensures T1: timeSane(t)
+//@ funcfield corerad.Metrics.MonMessagesReceivedTotal(v, labels)
+//@   assigns ghost.monReceived
+//@   ensures M1: ghost.monReceived == old(ghost.monReceived) + 1
+//@ funcfield corerad.Metrics.MonFlagManaged(v, labels)
+//@ funcfield corerad.Metrics.MonFlagOther(v, labels)
+//@ funcfield corerad.Metrics.MonDefaultRouteExpirationTime(v, labels)
+//@   assigns ghost.monDefaultRoute
+//@   ensures M1: ghost.monDefaultRoute == old(ghost.monDefaultRoute) + 1
+//@ funcfield corerad.Metrics.MonPrefixAutonomous(v, labels)
+//@   assigns ghost.monSamples
+//@   ensures M1: ghost.monSamples == old(ghost.monSamples) + 1
+//@ funcfield corerad.Metrics.MonPrefixOnLink(v, labels)
+//@   assigns ghost.monSamples
+//@   ensures M1: ghost.monSamples == old(ghost.monSamples) + 1
+//@ funcfield corerad.Metrics.MonPrefixPreferredLifetimeExpirationTime(v, labels)
+//@   assigns ghost.monSamples
+//@   ensures M1: ghost.monSamples == old(ghost.monSamples) + 1
+//@ funcfield corerad.Metrics.MonPrefixValidLifetimeExpirationTime(v, labels)
+//@   assigns ghost.monSamples
+//@   ensures M1: ghost.monSamples == old(ghost.monSamples) + 1
+
+//@ macro monOK(m) = m.cctx != nil && m.cctx.mm != nil && m.now != nil && m.cctx.mm.MonMessagesReceivedTotal != nil && m.cctx.mm.MonFlagManaged != nil && m.cctx.mm.MonFlagOther != nil && m.cctx.mm.MonDefaultRouteExpirationTime != nil && m.cctx.mm.MonPrefixAutonomous != nil && m.cctx.mm.MonPrefixOnLink != nil && m.cctx.mm.MonPrefixPreferredLifetimeExpirationTime != nil && m.cctx.mm.MonPrefixValidLifetimeExpirationTime != nil
+// durations decoded from the wire are non-negative and at most 2^32-1 seconds
+//@ macro wireDur(d) = 0 <= d && d <= ndpInfinity
+//@ macro raWireOK(ra) = wireDur(ra.RouterLifetime) && forall(k, 0, len(ra.Options), isType(ra.Options[k], "*ndp.PrefixInformation") ==> wireDur(as(ra.Options[k], "*ndp.PrefixInformation").ValidLifetime) && wireDur(as(ra.Options[k], "*ndp.PrefixInformation").PreferredLifetime))
+
+//@ func (*Monitor).handle
+//@   ghost local tnow Int
+//@   requires P1: monOK(m) && msgOK(msg) && (isRA(msg) ==> raWireOK(as(msg, "*ndp.RouterAdvertisement")))
+//@   assigns new mem(*ndp.MTU), ghost.monReceived, ghost.monSamples, ghost.monDefaultRoute
+//@   at call now() (tn): ghost.tnow = tn
+//@   at call MonMessagesReceivedTotal(v, labels): assert R1 [C18]: v == real(1) && len(labels) == 3 && labels[0] == m.iface && labels[1] == host
+//@   at call MonFlagManaged(v, labels): assert F1 [C18]: v == ite(as(msg, "*ndp.RouterAdvertisement").ManagedConfiguration, real(1), real(0)) && len(labels) == 2 && labels[0] == m.iface && labels[1] == host
+//@   at call MonFlagOther(v, labels): assert F2 [C18]: v == ite(as(msg, "*ndp.RouterAdvertisement").OtherConfiguration, real(1), real(0)) && len(labels) == 2 && labels[0] == m.iface && labels[1] == host
+//@   at call MonDefaultRouteExpirationTime(v, labels): assert G1 [C18]: as(msg, "*ndp.RouterAdvertisement").RouterLifetime != 0 && v == real(unixSec(ghost.tnow + as(msg, "*ndp.RouterAdvertisement").RouterLifetime)) && len(labels) == 2 && labels[0] == m.iface && labels[1] == host
+//@   at call MonPrefixAutonomous(v, labels): assert X1 [C18]: v == ite(p.AutonomousAddressConfiguration, real(1), real(0)) && len(labels) == 3 && labels[0] == m.iface && labels[1] == cidrStrOf(p.Prefix, p.PrefixLength) && labels[2] == host
+//@   at call MonPrefixOnLink(v, labels): assert X2 [C18]: v == ite(p.OnLink, real(1), real(0)) && len(labels) == 3 && labels[0] == m.iface && labels[1] == cidrStrOf(p.Prefix, p.PrefixLength) && labels[2] == host
+//@   at call MonPrefixPreferredLifetimeExpirationTime(v, labels): assert X3 [C18]: v == real(unixSec(ghost.tnow + p.PreferredLifetime)) && len(labels) == 3 && labels[0] == m.iface && labels[1] == cidrStrOf(p.Prefix, p.PrefixLength) && labels[2] == host
+//@   at call MonPrefixValidLifetimeExpirationTime(v, labels): assert X4 [C18]: v == real(unixSec(ghost.tnow + p.ValidLifetime)) && len(labels) == 3 && labels[0] == m.iface && labels[1] == cidrStrOf(p.Prefix, p.PrefixLength) && labels[2] == host
+//@   loop 1 invariant L0 [C18]: 0 <= rangeindex + 1 && rangeindex + 1 <= len(ranged(1)) && len(ranged(1)) == countTag(arr(as(msg, "*ndp.RouterAdvertisement").Options), len(as(msg, "*ndp.RouterAdvertisement").Options), tagOf("*ndp.PrefixInformation")) && forall(k, 0, len(ranged(1)), ranged(1)[k] != nil) && ghost.monSamples == old(ghost.monSamples) + 4 * (rangeindex + 1) && ghost.monReceived == old(ghost.monReceived) + 1 && isRA(msg) && timeSane(ghost.tnow) && now == ghost.tnow && monOK(m) && ghost.monDefaultRoute == old(ghost.monDefaultRoute) + b2i(as(msg, "*ndp.RouterAdvertisement").RouterLifetime != 0)
+//@   ensures E1 [C18]: ghost.monReceived == old(ghost.monReceived) + 1
+//@   ensures E2 [C18]: isRA(msg) ==> ghost.monSamples == old(ghost.monSamples) + 4 * countTag(arr(as(msg, "*ndp.RouterAdvertisement").Options), len(as(msg, "*ndp.RouterAdvertisement").Options), tagOf("*ndp.PrefixInformation")) && ghost.monDefaultRoute == old(ghost.monDefaultRoute) + b2i(as(msg, "*ndp.RouterAdvertisement").RouterLifetime != 0)
+//@   ensures E3 [C18,C09]: !isRA(msg) ==> ghost.monSamples == old(ghost.monSamples) && ghost.monDefaultRoute == old(ghost.monDefaultRoute)
+//@   opt safety [C18]
+//@   opt frame [C18]
